@@ -32,6 +32,7 @@ type TypeInfo struct {
 	Base    string
 	GoName  string
 	New     func() interface{} // pointer to a fresh generated struct
+	Exts    map[string]interface{} // extension descriptors by kind name (extendable corpus messages only)
 }
 
 // GEv is the uniform event record of the "gen" traces (spec/TraceGen.tla).
@@ -571,6 +572,8 @@ func Main(types []TypeInfo) {
 	G := flag.Int("g", 8, "goroutines (readers family)")
 	iters := flag.Int("iters", 200, "iterations per goroutine (readers family)")
 	procs := flag.Int("procs", 1, "GOMAXPROCS")
+	scripts := flag.String("scripts", "", "file with TLC-emitted operation scripts (ext family)")
+	maxScripts := flag.Int("maxscripts", 0, "use at most this many scripts (0 = all)")
 	flag.Parse()
 	runtime.GOMAXPROCS(*procs)
 	var sel []TypeInfo
@@ -618,6 +621,12 @@ func Main(types []TypeInfo) {
 			d.FamAlias(*nrand)
 		case "readers":
 			d.FamReaders(*nrand, *G, *iters)
+		case "dispatch":
+			d.FamDispatch(*nrand, *G)
+		case "ext":
+			d.FamExt(*scripts, *maxScripts)
+		case "json":
+			d.FamJSON(*nrand)
 		case "":
 		default:
 			fmt.Fprintln(os.Stderr, "unknown family", f)
